@@ -1440,6 +1440,12 @@ class Analysis:
             itv = self.deref_val(it, st) if it is not None else None
             if last == 'next' and len(A) == 1:
                 if itv is not None and itv[0] == 'iter':
+                    sel = self._selecting(itv)
+                    if sel:
+                        # a selecting adaptor (filter / take_while / skip / ...) sits between the source and this next():
+                        # the element is one of the source's, but NOT every element arrives — the Option carries the
+                        # adaptors so that "is Some" is never mistaken for "the source has another element"
+                        return ('maybe', self.iter_item(itv, st, bb), ('adaptors',) + sel)
                     return ('maybe', self.iter_item(itv, st, bb))
                 return ('maybe', ('uf', 'next', itv))
             if last in ('map', 'filter', 'filter_map', 'zip', 'enumerate', 'rev', 'skip', 'take', 'chain', 'cloned', 'copied',
@@ -1500,6 +1506,18 @@ class Analysis:
             if it[2][0] == 'iter':
                 return self.iter_item(it[2], st, bb)
         return ('uf', 'next', it)
+
+    _SELECTING = ('filter', 'filter_map', 'skip', 'take', 'skip_while', 'take_while', 'step_by', 'chain', 'flat_map', 'flatten')
+
+    def _selecting(self, it):
+        """the selecting adaptors in an iterator chain, outermost first: ((kind, args...), ...)"""
+        out = ()
+        while isinstance(it, tuple) and it and it[0] == 'iter':
+            if it[1] in self._SELECTING:
+                out = out + ((it[1],) + tuple(x for x in it[3:] if not (isinstance(x, tuple) and x and x[0] == 'tag')),)
+            nxt = it[2] if len(it) > 2 else None
+            it = nxt if isinstance(nxt, tuple) and nxt and nxt[0] == 'iter' else None
+        return out
 
     def iter_pos(self, it):
         if it[0] == 'iter':
